@@ -466,6 +466,16 @@ D_REPLAYS = [
     'OOM D 22 0 W 00 0 Z78 K - B1T5~- CCS6162;B0T7~T0/N:S76;CCXT0.0.78;E',
 ]
 
+# Minimised OOM X / OOM F replays of the mutation checks of DESIGN_NOTES/C16.md §11 / §12 (clean on the repaired tree), run first:
+# X: the copy of an attribute value must be destroyed when an entity cannot be appended (xml_encode_attr);
+# F: the attribute under construction must be destroyed when its value buffer (k = 9: struct, k = 10: data) cannot be made
+#    (wbxml_tree_node_add_xml_attr).
+XF_REPLAYS = [
+    'OOM X 9 0 0 2 0 W:100:776d6c:2d2f2f574150464f52554d2f2f44544420574d4c20312e332f2f454e:687474703a2f2f7777772e776170666f72756d2e6f72672f4454442f776d6c31332e647464 ET18/706f73746669656c64/-/00~L786d6c3a6c616e67=3c27270a27263c610a|L636c617373=-()',
+    'OOM F 9 0 3c3f786d6c2076657273696f6e3d22312e30223f3e0a3c21444f435459504520776d6c205055424c494320222d2f2f574150464f52554d2f2f44544420574d4c20312e332f2f454e222022687474703a2f2f7777772e776170666f72756d2e6f72672f4454442f776d6c31332e647464223e0a3c776d6c207a7a3d2276222f3e0a 1 S1T/L7a7a=76,E0-',
+    'OOM F 10 0 3c3f786d6c2076657273696f6e3d22312e30223f3e0a3c21444f435459504520776d6c205055424c494320222d2f2f574150464f52554d2f2f44544420574d4c20312e332f2f454e222022687474703a2f2f7777772e776170666f72756d2e6f72672f4454442f776d6c31332e647464223e0a3c776d6c207a7a3d2276222f3e0a 1 S1T/L7a7a=76,E0-',
+]
+
 D_LITS = [b'Data', b'Add', b'Replace', b'Item', b'x', b'SyncBody', b'a:b', b'long-literal-element-name']
 D_KEYVALUE_ROW = 7          # <ds:KeyValue> in the DRMREL 1.0 tag table: its opaque content is base64-decoded
 
@@ -1252,6 +1262,11 @@ def unit_requests(rng, tier, info, driver, seed=0, infos=None, xinfos=None):
     if xinfos:
         for _ in range(60 if tier == 'quick' else 600):
             bases.append(('X', gen_X(rx, xinfos)))
+    # F (wbxml_tree_from_xml on generated XML text; Expat runs for real), own generator
+    rf = random.Random('c16-F-%s' % seed)
+    if xinfos:
+        for _ in range(50 if tier == 'quick' else 500):
+            bases.append(('F', gen_F(rf, xinfos)))
     bases = [b for b in bases if b[1].strip()]
     zero = ['OOM %s 0 0 %s' % b for b in bases]
     resp = run_lines([driver], zero)
@@ -1263,7 +1278,7 @@ def unit_requests(rng, tier, info, driver, seed=0, infos=None, xinfos=None):
         for k in range(1, n + 2):           # n+1: a k that is never reached
             lines.append('OOM %s %d 0 %s' % (verb, k, body))
         npairs = 6 if tier == 'quick' else 40
-        rp = {'B': rb, 'D': rd, 'X': rx}.get(verb, rng)
+        rp = {'B': rb, 'D': rd, 'X': rx, 'F': rf}.get(verb, rng)
         for _ in range(min(npairs, n * (n - 1) // 2)):
             k1 = rp.randint(1, max(1, n - 1))
             k2 = rp.randint(k1 + 1, n + 3)
@@ -1312,6 +1327,14 @@ def unit_oracle(line, resp):
             return 'tree building failed with %s but live=%d tree=%s' % (ret, live, tree[:20])
         if ret == '0' and hits:
             return 'tree building returned OK although an allocation failed'
+    if verb == 'F':
+        tree = resp.rsplit('tree=', 1)[-1]
+        if ret != '0' and (live != 0 or tree != 'N'):
+            return 'wbxml_tree_from_xml failed with %s but live=%d tree=%s' % (ret, live, tree[:20])
+        if ret == '0' and hits:
+            return 'wbxml_tree_from_xml returned OK although an allocation failed'
+        if ret == '0' and (tree == 'N' or live <= 0):
+            return 'wbxml_tree_from_xml returned OK without a tree (live=%d)' % live
     if verb == 'D':
         tree = resp.rsplit('tree=', 1)[-1]
         if ret != '0' and (live != 0 or tree != 'N'):
@@ -1504,7 +1527,8 @@ def run(res, args):
                                  'stray_direct_allocator_calls_outside_wbxml_mem': stray_allocator_calls()}
     res.assumptions += ['single failure per run (pairs sampled at unit level; pairs on 20 documents in the thorough tier)',
                         "allocations made by Expat (libc malloc) are not 'made by the library': neither failed nor ledgered (LSan still sees them)",
-                        'unit level: WML 1.3 tables, languages without the SI/EMN date-time attribute branch']
+                        'unit level: WML 1.3 tables, languages without the SI/EMN date-time attribute branch (OOM X also SyncML 1.2 / DevInf 1.2 / AirSync; OOM F also SyncML 1.2 / AirSync)',
+                        'OOM F: the call-back events given to the model are predicted by the generator from the XML text it writes (Expat delivers a run of characters up to a line feed, an entity reference or markup as one call); XML documents with an embedded DevInf / MgmtTree element are not generated']
 
     # ---- (0) stored replays of the defects repaired by fix: commits — must be clean now
     corpus_dir = os.path.join(common.VERIF, 'corpus', 'c16')
@@ -1545,7 +1569,7 @@ def run(res, args):
         lines += [l.strip() for l in open(os.path.join(corpus_dir, 'unit_replays.txt')) if l.startswith('OOM ')]
     except OSError:
         pass
-    lines += [l for l in D_REPLAYS if l not in lines]
+    lines += [l for l in D_REPLAYS + XF_REPLAYS if l not in lines]
     infos = {'W': info, 'R': unit_info(exe, env, 'R')}
     xinfos = {k: xml_info(exe, env, k) for k in 'WSVA'}
     lines += unit_requests(rng, res.tier, info, driver, res.seed, infos, xinfos)
@@ -1693,7 +1717,7 @@ def run(res, args):
                       'oom-correspondence', no_input=True)
     if failing and not res.violations:
         res.violation({'kind': 'proof', 'theorems': failing, 'explain': 'Props/C16.lean no longer checks'}, 'proof', no_input=True)
-    res.coverage['rule'] = ('unit: random op programs / attribute shapes / text lists / element trees / call-back event lists / whole documents (OOM D: wbxml_tree_from_wbxml) x every k (and sampled pairs), distinct = distinct '
+    res.coverage['rule'] = ('unit: random op programs / attribute shapes / text lists / element trees / call-back event lists / whole documents (OOM D: wbxml_tree_from_wbxml) / trees for the XML printer (OOM X: wbxml_tree_to_xml) / XML texts with the Expat call-backs predicted (OOM F: wbxml_tree_from_xml) x every k (and sampled pairs), distinct = distinct '
                             'request lines; conversion: documents x 6 option sets x every k in 1..N (N counted on the un-failed run), distinct = (document, option set)')
     res.coverage['new_sites'] = len(res.violations)
     return res.finish('proof', checker_cmd='lake build Wbxml.Props.C16 driver_alloc && #audit Wbxml.Props.C16 (lake env lean); '
